@@ -88,4 +88,19 @@ def check09 (o : Obs09) : Option String :=
     | some .fail => if o.connFailed then (if afterClose o.wire then none else some "write-after-close")
                     else some "connect-failed-on-healthy-connection"
 
+def robsOf : Pc → RObs
+  | .done (.reply _ _) => .reply
+  | .done .sent => .nil
+  | .done .closed => .closed
+  | .done .ctx => .ctx
+  | .done .zero => .other
+  | _ => .timeout
+
+def obs09Of (s : St) (cs : List Nat) : Obs09 :=
+  { callers := cs.map (fun c => ((s.callers c).cancelled, robsOf (s.callers c).pc)),
+    connect := match s.conn with
+      | .returned e => some e
+      | _ => none,
+    closedLocally := s.closedLocally, connFailed := s.broken, wire := s.written.map (·.f.typ) }
+
 end LLRP.LTS
